@@ -135,6 +135,10 @@ namespace {
         throw std::logic_error("bxdecay0::get_dbd_modes: Invalid format for file '" + filename
                                + "'! Cannot decode BB mode!");
       }
+      if (dbd_mode < bxdecay0::DBDMODE_MIN || dbd_mode > bxdecay0::DBDMODE_MAX) {
+        throw std::logic_error("bxdecay0::get_dbd_modes: Invalid format for file '" + filename
+                               + "'! Invalid BB mode!");
+      }
       record.dbd_mode = static_cast<bxdecay0::dbd_mode_type>(dbd_mode);
 
       // Label:
@@ -148,6 +152,10 @@ namespace {
       if (!parse_iss) {
         throw std::logic_error("bxdecay0::get_dbd_modes: Invalid format for file '" + filename
                                + "'! Cannot decode legacy Decay0 mode");
+      }
+      if (legacy_modebb > bxdecay0::LEGACY_MODEBB_MAX) {
+        throw std::logic_error("bxdecay0::get_dbd_modes: Invalid format for file '" + filename
+                               + "'! Invalid legacy Decay0 mode!");
       }
       if (legacy_modebb >= 0) {
         record.legacy_modebb = static_cast<bxdecay0::legacy_modebb_type>(legacy_modebb);
@@ -221,19 +229,31 @@ namespace bxdecay0 {
   std::string dbd_mode_label(const dbd_mode_type dbd_mode_)
   {
     const std::map<dbd_mode_type, dbd_record> & m = dbd_modes();
-    return m.find(dbd_mode_)->second.unique_label;
+    auto found = m.find(dbd_mode_);
+    if (found == m.end()) {
+      throw std::logic_error("bxdecay0::dbd_mode_label: Unknown DBD mode!");
+    }
+    return found->second.unique_label;
   }
 
   std::string dbd_mode_description(const dbd_mode_type dbd_mode_)
   {
     const std::map<dbd_mode_type, dbd_record> & m = dbd_modes();
-    return m.find(dbd_mode_)->second.description;
+    auto found = m.find(dbd_mode_);
+    if (found == m.end()) {
+      throw std::logic_error("bxdecay0::dbd_mode_description: Unknown DBD mode!");
+    }
+    return found->second.description;
   }
 
   legacy_modebb_type dbd_legacy_mode(const dbd_mode_type dbd_mode_)
   {
     const std::map<dbd_mode_type, dbd_record> & m = dbd_modes();
-    return m.find(dbd_mode_)->second.legacy_modebb;
+    auto found = m.find(dbd_mode_);
+    if (found == m.end()) {
+      throw std::logic_error("bxdecay0::dbd_legacy_mode: Unknown DBD mode!");
+    }
+    return found->second.legacy_modebb;
   }
 
   const std::set<dbd_mode_type> & dbd_modes_with_esum_range()
